@@ -126,12 +126,13 @@ type eOcc struct {
 
 // extractor turns the body of one predicate into a formula.
 type extractor struct {
-	p      *load.Program
-	fd     *ast.FuncDecl
-	ps, pk *types.Var
-	bind   map[types.Object]ast.Expr
-	occ    []eOcc
-	fields struct {
+	p       *load.Program
+	fd      *ast.FuncDecl
+	ps, pk  *types.Var
+	bind    map[types.Object]ast.Expr
+	occ     []eOcc
+	helpers map[*types.Func]bool
+	fields  struct {
 		header, af, hasAF, di, hasPayload, cc *types.Var
 	}
 }
@@ -346,8 +347,140 @@ func (x *extractor) compareForm(e *ast.BinaryExpr) *form {
 			}
 		}
 	}
+	// cc(p) compared with the result of a pure package helper that selects the expected counter
+	// (`if hasPayload { return (prev.cc+1)%16 }; return prev.cc`): the comparison is distributed over the helper's returns
+	if e.Op == token.EQL || e.Op == token.NEQ {
+		l, r = e.X, e.Y
+		if x.isCCp(r) {
+			l, r = r, l
+		}
+		if x.isCCp(l) {
+			if f := x.helperCompare(e, l, r); f != nil {
+				return f
+			}
+		}
+	}
 	x.fail(e, "unrecognised atom %s in %s", types.ExprString(e), x.fd.Name.Name)
 	return nil
+}
+
+// helperCompare handles `cc(p) ==/!= h(args…)` where h is a package-level function without receiver whose body is a
+// chain of local definitions, ifs and single-value returns. The parameters are bound to the (call-free) argument
+// expressions, the conditions become formulas over the usual atoms and every returned expression must be cc(prev) or
+// its successor: the comparison with it is an ordinary counter occurrence, checked semantically like the others.
+func (x *extractor) helperCompare(e *ast.BinaryExpr, ccp, other ast.Expr) *form {
+	call, ok := x.resolve(other).(*ast.CallExpr)
+	if !ok {
+		return nil
+	}
+	id, ok := unparen(call.Fun).(*ast.Ident)
+	if !ok {
+		return nil
+	}
+	fn, ok := x.p.Info.Uses[id].(*types.Func)
+	if !ok || fn.Pkg() == nil || fn.Type().(*types.Signature).Recv() != nil {
+		return nil
+	}
+	fd := x.p.Decl(fn.Name())
+	if fd == nil || fd.Body == nil || x.p.Info.Defs[fd.Name] != types.Object(fn) || fd.Type.Results == nil || len(fd.Type.Results.List) != 1 || len(fd.Type.Results.List[0].Names) != 0 {
+		return nil
+	}
+	if x.helpers == nil {
+		x.helpers = map[*types.Func]bool{}
+	}
+	if x.helpers[fn] {
+		x.fail(call, "helper %s is used more than once in %s", fn.Name(), x.fd.Name.Name)
+	}
+	x.helpers[fn] = true
+	for _, a := range call.Args {
+		ast.Inspect(a, func(n ast.Node) bool {
+			if c, ok := n.(*ast.CallExpr); ok && !isBuiltinCall(x.p, c, "len") {
+				x.fail(c, "argument of %s contains a call", fn.Name())
+			}
+			return true
+		})
+	}
+	var params []types.Object
+	for _, f := range fd.Type.Params.List {
+		if len(f.Names) == 0 {
+			x.fail(fd, "helper %s has an unnamed parameter", fn.Name())
+		}
+		for _, nm := range f.Names {
+			params = append(params, x.p.Info.Defs[nm])
+		}
+	}
+	if len(params) != len(call.Args) || fn.Type().(*types.Signature).Variadic() {
+		x.fail(call, "helper %s: arguments do not match parameters", fn.Name())
+	}
+	x.checkSingleAssignment(fd, params)
+	for i, po := range params {
+		if po != nil {
+			x.bind[po] = call.Args[i]
+		}
+	}
+	var walk func(list []ast.Stmt) *form
+	walk = func(list []ast.Stmt) *form {
+		for i, s := range list {
+			switch s := s.(type) {
+			case *ast.EmptyStmt:
+				continue
+			case *ast.AssignStmt:
+				if s.Tok == token.DEFINE && len(s.Lhs) == 1 && len(s.Rhs) == 1 {
+					if id, ok := s.Lhs[0].(*ast.Ident); ok {
+						if obj := x.p.Info.Defs[id]; obj != nil {
+							x.bind[obj] = s.Rhs[0]
+							continue
+						}
+					}
+				}
+				x.fail(s, "assignment %s is not a single local definition", x.src(s))
+			case *ast.ReturnStmt:
+				if len(s.Results) != 1 {
+					x.fail(s, "return without exactly one result")
+				}
+				a := -1
+				switch {
+				case x.isCCprev(s.Results[0]):
+					a = aE0
+				case x.isSucc(s.Results[0]):
+					a = aE1
+				}
+				if a < 0 {
+					x.fail(s, "helper %s returns %s, which is neither cc(prev) nor its successor", fn.Name(), types.ExprString(s.Results[0]))
+				}
+				cmp := &ast.BinaryExpr{X: ccp, OpPos: e.OpPos, Op: e.Op, Y: s.Results[0]}
+				x.occ = append(x.occ, eOcc{expr: cmp, atom: a, negated: e.Op == token.NEQ, fn: x.fd.Name.Name + "→" + fn.Name()})
+				if e.Op == token.NEQ {
+					return not(atom(a))
+				}
+				return atom(a)
+			case *ast.IfStmt:
+				if s.Init != nil {
+					x.fail(s, "if with init statement")
+				}
+				c := x.boolForm(s.Cond)
+				rest := list[i+1:]
+				thenF := walk(append(append([]ast.Stmt{}, s.Body.List...), rest...))
+				var elseF *form
+				switch el := s.Else.(type) {
+				case nil:
+					elseF = walk(rest)
+				case *ast.BlockStmt:
+					elseF = walk(append(append([]ast.Stmt{}, el.List...), rest...))
+				case *ast.IfStmt:
+					elseF = walk(append([]ast.Stmt{el}, rest...))
+				}
+				return &form{op: '?', x: c, y: thenF, z: elseF}
+			case *ast.BlockStmt:
+				return walk(append(append([]ast.Stmt{}, s.List...), list[i+1:]...))
+			default:
+				x.fail(s, "statement form %T is not supported in a counter helper", s)
+			}
+		}
+		x.fail(fd, "%s can fall off its end", fn.Name())
+		return nil
+	}
+	return walk(fd.Body.List)
 }
 
 // stmts converts a statement list (local bindings, if/return) into a formula.
@@ -407,9 +540,14 @@ func (x *extractor) src(n ast.Node) string {
 
 func (x *extractor) extract() (f *form, err error) {
 	defer catch(&err)
-	// locals may be bound only once and parameters never assigned
+	x.checkSingleAssignment(x.fd, []types.Object{x.ps, x.pk})
+	return x.stmts(x.fd.Body.List), nil
+}
+
+// checkSingleAssignment: locals may be bound only once and parameters never assigned
+func (x *extractor) checkSingleAssignment(fd *ast.FuncDecl, params []types.Object) {
 	defs := map[types.Object]int{}
-	ast.Inspect(x.fd.Body, func(n ast.Node) bool {
+	ast.Inspect(fd.Body, func(n ast.Node) bool {
 		switch s := n.(type) {
 		case *ast.AssignStmt:
 			for _, l := range s.Lhs {
@@ -435,11 +573,16 @@ func (x *extractor) extract() (f *form, err error) {
 		return true
 	})
 	for obj, n := range defs {
-		if n > 1 || obj == x.ps || obj == x.pk {
-			x.fail(x.fd, "variable %s is assigned more than once", obj.Name())
+		isParam := false
+		for _, po := range params {
+			if po != nil && obj == po {
+				isParam = true
+			}
+		}
+		if n > 1 || isParam {
+			x.fail(fd, "variable %s is assigned more than once", obj.Name())
 		}
 	}
-	return x.stmts(x.fd.Body.List), nil
 }
 
 // checkAtoms evaluates every counter comparison found in the source over the 16×16 counter pairs with the
